@@ -821,4 +821,131 @@ theorem corun_pair (ops : List CoOp) (c : Coord) : ∃ cops, (corun ops c).pair 
     rw [h2, h1]
     simp [crun, List.foldl_append]
 
+/-! ### absence from the wait-for graph is kept by further removals -/
+
+/-- `tx` does not occur in the wait-for graph: no entry in either index, in nobody's holder or
+    waiter set, no wait-start, no priority -/
+def Absent (g : WaitGraph) (tx : Nat) : Prop :=
+  aGet g.edges tx = none ∧ aGet g.reverse tx = none ∧ (∀ w, tx ∉ outs g w) ∧ (∀ h, tx ∉ ins g h) ∧
+  aGet g.waitStarted tx = none ∧ aGet g.priorities tx = none
+
+theorem absent_removeTransaction (g : WaitGraph) (tx tx' : Nat) (hT : Transpose g)
+    (h : tx = tx' ∨ Absent g tx) : Absent (removeTransaction g tx') tx := by
+  rcases h with h | ⟨a1, a2, a3, a4, a5, a6⟩
+  · subst h; exact removeTransaction_absent g tx hT
+  · refine ⟨?_, ?_, ?_, ?_, ?_, ?_⟩
+    · rw [removeTransaction_eq]
+      apply eraseFromEach_none
+      rw [aGet_aRemove]; by_cases e : tx = tx' <;> simp [e, a1]
+    · rw [removeTransaction_eq]
+      simp only [aGet_aRemove]
+      split
+      · rfl
+      · exact eraseFromEach_none _ _ _ _ a2
+    · intro w hw; exact a3 w ((mem_outs_removeTransaction g tx' w tx hT).mp hw).1
+    · intro x hx; exact a4 x ((mem_ins_removeTransaction g tx' tx x hT).mp hx).1
+    · rw [removeTransaction_eq]; simp only [aGet_aRemove]; by_cases e : tx = tx' <;> simp [e, a5]
+    · rw [removeTransaction_eq]; simp only [aGet_aRemove]; by_cases e : tx = tx' <;> simp [e, a6]
+
+theorem absent_foldl_removeTransaction (txs : List Nat) (g : WaitGraph) (tx : Nat) (hT : Transpose g)
+    (h : tx ∈ txs ∨ Absent g tx) : Absent (txs.foldl removeTransaction g) tx := by
+  induction txs generalizing g with
+  | nil =>
+    rcases h with h | h
+    · simp at h
+    · exact h
+  | cons a r ih =>
+    simp only [List.foldl_cons]
+    apply ih _ (transpose_removeTransaction g a hT)
+    rcases h with h | h
+    · simp only [List.mem_cons] at h
+      rcases h with h | h
+      · exact Or.inr (absent_removeTransaction g tx a hT (Or.inl h))
+      · exact Or.inl h
+    · exact Or.inr (absent_removeTransaction g tx a hT (Or.inr h))
+
+theorem releaseByHandleWait_graph (t : LockTable) (g : WaitGraph) (h : Nat) :
+    ∃ L : List Nat, (releaseByHandleWait t g h).2 = L.foldl removeTransaction g := by
+  unfold releaseByHandleWait
+  simp only
+  split
+  · next tx _ => exact ⟨[tx], rfl⟩
+  · exact ⟨[], rfl⟩
+
+/-- the wait-for graph after the handle loop is the old one with some transactions removed -/
+theorem releaseHandles_graph (hs : List Nat) (t : LockTable) (g : WaitGraph) :
+    ∃ L : List Nat, (releaseHandles t g hs).2 = L.foldl removeTransaction g := by
+  unfold releaseHandles
+  induction hs generalizing t g with
+  | nil => exact ⟨[], rfl⟩
+  | cons a r ih =>
+    simp only [List.foldl_cons]
+    obtain ⟨L1, h1⟩ := releaseByHandleWait_graph t g a
+    obtain ⟨L2, h2⟩ := ih (releaseByHandleWait t g a).1 (releaseByHandleWait t g a).2
+    exact ⟨L1 ++ L2, by rw [h2, h1, List.foldl_append]⟩
+
+theorem finish_graph (c : Coord) (tx : Nat) (p : PTx) :
+    ∃ L : List Nat, (c.finish tx p).g = (L ++ [tx]).foldl removeTransaction c.g := by
+  obtain ⟨L, hL⟩ := releaseHandles_graph p.handles c.t c.g
+  exact ⟨L, by simp only [Coord.finish, endTx, hL, List.foldl_append, List.foldl_cons, List.foldl_nil]⟩
+
+theorem timeoutLoop_absent (txs : List Nat) (c : Coord) (tx : Nat) (hi : CoInv c)
+    (h0 : aGet c.pending tx = none → Absent c.g tx) :
+    aGet (timeoutLoop c txs).pending tx = none → Absent (timeoutLoop c txs).g tx := by
+  induction txs generalizing c with
+  | nil => exact h0
+  | cons a r ih =>
+    simp only [timeoutLoop, List.foldl_cons]
+    cases hp : aGet c.pending a with
+    | none => exact ih c hi h0
+    | some p =>
+      apply ih (c.finish a p) (coInv_finish c a p hp hi)
+      intro hnone
+      obtain ⟨L, hL⟩ := finish_graph c a p
+      rw [hL]
+      apply absent_foldl_removeTransaction _ _ _ hi.tr
+      by_cases e : tx = a
+      · left; simp [e]
+      · right
+        apply h0
+        simpa only [Coord.finish, aGet_aRemove, e, ↓reduceIte] using hnone
+
+theorem mem_foldl_setInsert_snd (oks : List (Nat × Nat)) (acc : List Nat) (tx : Nat) :
+    tx ∈ oks.foldl (fun s p => setInsert s p.2) acc ↔ tx ∈ acc ∨ ∃ k, (k, tx) ∈ oks := by
+  induction oks generalizing acc with
+  | nil => simp
+  | cons a r ih =>
+    simp only [List.foldl_cons, ih, mem_setInsert, List.mem_cons]
+    constructor
+    · rintro ((h | h) | ⟨k, h⟩)
+      · exact Or.inl h
+      · exact Or.inr ⟨a.1, Or.inl (by rw [h])⟩
+      · exact Or.inr ⟨k, Or.inr h⟩
+    · rintro (h | ⟨k, h | h⟩)
+      · exact Or.inl (Or.inl h)
+      · exact Or.inl (Or.inr (by rw [← h]))
+      · exact Or.inr ⟨k, h⟩
+
+theorem mem_outs_foldl_removeTransaction (txs : List Nat) (g : WaitGraph) (hT : Transpose g) (a b : Nat) :
+    b ∈ outs (txs.foldl removeTransaction g) a ↔ b ∈ outs g a ∧ a ∉ txs ∧ b ∉ txs := by
+  induction txs generalizing g with
+  | nil => simp
+  | cons x r ih =>
+    simp only [List.foldl_cons, ih _ (transpose_removeTransaction g x hT), mem_outs_removeTransaction g x a b hT,
+      List.mem_cons, not_or]
+    constructor
+    · rintro ⟨⟨h1, h2, h3⟩, h4, h5⟩; exact ⟨h1, ⟨h2, h4⟩, ⟨h3, h5⟩⟩
+    · rintro ⟨h1, ⟨h2, h4⟩, ⟨h3, h5⟩⟩; exact ⟨⟨h1, h2, h3⟩, h4, h5⟩
+
+theorem mem_staleTxs (g : WaitGraph) (now ttl tx : Nat) :
+    tx ∈ staleTxs g now ttl ↔ ∃ s, (tx, s) ∈ g.waitStarted ∧ now - s > ttl := by
+  unfold staleTxs
+  simp only [List.mem_map, List.mem_filter, decide_eq_true_eq]
+  constructor
+  · rintro ⟨⟨a, s⟩, ⟨h1, h2⟩, e⟩
+    simp only at e h2; subst e
+    exact ⟨s, h1, h2⟩
+  · rintro ⟨s, h1, h2⟩
+    exact ⟨(tx, s), ⟨h1, h2⟩, rfl⟩
+
 end Neumann.Locks
